@@ -8,7 +8,7 @@ from mgverif.prog import Interp, enc_arr
 from mgverif import mgrun
 from mgverif.gen.dag import gen_dag
 from mgverif.gen import build as B
-from mgverif.props.C02 import gradinv
+from mgverif.props.C02 import gradinv, classify_layers
 
 PID = "C14"
 LEVEL = "exploration"
@@ -127,3 +127,7 @@ def run_case(case):
                 viol.append({"monitor": "seeding-identity", "mech": f"value:{kind}", "msg": f"{n}.grad {x.ravel()[:3]} via backward({kind}) but {y.ravel()[:3]} via the explicit sum form"})
     sets["opclasses"] = sorted(REG.opclasses)
     return {"viol": viol[:4], "counters": cnt, "sets": sets, "sig": mgrun.struct_sig(prog) + kind, "nontrivial": ncomp >= 2}
+
+
+def classify(v, case):
+    return classify_layers(v, case) or v.get("mech") or v["monitor"]
